@@ -26,6 +26,9 @@ pub use lower::HugeId;
 mod trees;
 pub use trees::TreeId;
 
+#[cfg(feature = "verif")]
+pub mod verif;
+
 use core::fmt;
 use core::mem::align_of;
 
